@@ -85,6 +85,17 @@ CHECKS = {
         "width; the rest is seeded sampling.",
    note="Software writes whole registers (all words, address order). The clients (Timer, UART, GPIO) are exercised in C19.",
    tech="deterministic simulation, clear/trigger alignment enumerated cycle by cycle + seeded waveform/access interleavings, per-cycle model"),
+ "C09": dict(cat="exploration", ref="DESIGN.md 5.C09",
+   text="Real AXILite2Wishbone, Wishbone2AXILite, AXILiteDown/Up/Converter (ratios 2/4/8), AXILiteSRAM, AXILite2CSR (+CSR SRAM), "
+        "AXILiteRemapper and chains of two, driven by a master agent of the upstream protocol (concurrent reads/writes, "
+        "strobes, gaps, response back-pressure, up to 4 outstanding, program-order hazards respected) against a slave agent of "
+        "the downstream protocol with its own legal timing (several requests accepted before answering, delayed ready, error "
+        "range); reference byte memory on the master side, response codes incl. error propagation, store content, and "
+        "valid/payload-stability monitors on every channel the bridge drives. Sampling, not proof.",
+   note="AXI4-full bridges (AXI2AXILite, AXILite2AXI, AXI2Wishbone, Wishbone2AXI) and AHB2Wishbone: see props/c09 family list "
+        "(claimed only as far as families exist). Known findings C09-F1 (AXILite2Wishbone ignores err) and C09-F2 "
+        "(AXILiteUpConverter with several outstanding requests).",
+   tech="deterministic simulation, seeded cross-protocol channel-timing search, reference byte memory + protocol monitors"),
  "C16": dict(cat="exploration", ref="DESIGN.md 5.C16",
    text="Seeded search over header definitions, data widths, packet lists, valid/ready schedules and selector changes for "
         "Packetizer, Depacketizer, their round trip, PacketFIFO, Arbiter and Dispatcher on the real simulator; outputs "
